@@ -14,6 +14,7 @@ import XotModel.Lemmas.Axes
 import XotModel.Lemmas.ArenaExamples
 import XotModel.Lemmas.ArenaTraverse
 import XotModel.Lemmas.ArenaRevTraverse
+import XotModel.Model.ValueAccess
 
 namespace XotModel.Props
 open XotModel XotModel.Axes
@@ -332,6 +333,70 @@ theorem C07_top_element (t : Tree) (p : Path) :
       topElement t p = .ok (((ancRel p ++ [p]).find? (fun a => (valueAt t a).isElement)).getD p)) :=
   topElement_eq t p
 
+/-! ## The per-node read accessors of valueaccess.rs (Model/ValueAccess.lean) -/
+
+/-- `has_document_parent(n)`: the parent of `n` is a document node.  `is_document_element(n)` ⇔ `n` is
+    an element and one of the (normal) children of a document node — the document's element child
+    in a well-formed document.  The root of a tree has no parent: both are `false`. -/
+theorem C07_is_document_element {t : Tree} {π : Path} {i : Nat} (hw : wf t = true)
+    (h : Valid t (π ++ [i])) :
+    hasDocumentParent t (π ++ [i]) = (valueAt t π).isDocument ∧
+    (isDocumentElement t (π ++ [i]) = true ↔
+      (valueAt t π).isDocument = true ∧ (π ++ [i]) ∈ children t π ∧
+      (valueAt t (π ++ [i])).isElement = true) ∧
+    hasDocumentParent t [] = false ∧ isDocumentElement t [] = false := by
+  refine ⟨by simp [hasDocumentParent], ?_, by simp [hasDocumentParent], by simp [isDocumentElement]⟩
+  simp only [isDocumentElement, parent_snoc, Bool.and_eq_true]
+  constructor
+  · rintro ⟨hd, he⟩
+    refine ⟨hd, ?_, he⟩
+    rw [children_spec hw (valid_prefix h), List.mem_filter]
+    refine ⟨(mem_pre_iff t _).mpr ⟨h, ?_⟩, by simp⟩
+    unfold isNormalAt
+    cases hv : valueAt t (π ++ [i]) <;> simp_all [Value.isElement, Value.isNormal, Value.category]
+  · rintro ⟨hd, _, he⟩
+    exact ⟨hd, he⟩
+
+/-- What `document_element(p)` returns is a document element in the sense of `is_document_element`
+    (and has a document parent). -/
+theorem C07_document_element_is {t : Tree} {p c : Path} (hw : wf t = true) (h : Valid t p)
+    (hc : documentElement t p = .ok c) :
+    isDocumentElement t c = true ∧ hasDocumentParent t c = true := by
+  obtain ⟨hd, hmem, he, _⟩ := documentElement_ok hw h hc
+  rw [children_spec hw h, List.mem_filter] at hmem
+  have hp : parent c = some p := by simpa using hmem.2
+  simp [isDocumentElement, hasDocumentParent, hp, hd, he]
+
+/-- Conversely, an `is_document_element` node that is the ONLY element child of its parent (a
+    well-formed document has exactly one) is what `document_element(parent)` returns. -/
+theorem C07_is_document_element_unique {t : Tree} {π : Path} {i : Nat} (hw : wf t = true)
+    (h : Valid t (π ++ [i])) (hde : isDocumentElement t (π ++ [i]) = true)
+    (huniq : ∀ c ∈ children t π, (valueAt t c).isElement = true → c = π ++ [i]) :
+    documentElement t π = .ok (π ++ [i]) := by
+  obtain ⟨hd, hmem, he⟩ := (C07_is_document_element hw h).2.1.mp hde
+  unfold documentElement
+  simp only [hd, Bool.not_true, Bool.false_eq_true, if_false]
+  cases hf : (children t π).find? (fun c => (valueAt t c).isElement) with
+  | none =>
+    have := List.find?_eq_none.mp hf _ hmem
+    simp [he] at this
+  | some c =>
+    have hc := huniq c (List.mem_of_find?_eq_some hf) (by simpa using List.find?_some hf)
+    simp [hc]
+
+/-- `get_element_name` panics exactly on a non-element; the typed value accessors (`comment_str`,
+    `processing_instruction`, `namespace_node`, `attribute_node`) are `Some` exactly on a value of
+    their kind and then return its fields. -/
+theorem C07_value_accessors (t : Tree) (p : Path) :
+    (∀ n, getElementName t p = .ok n ↔ valueAt t p = .element n) ∧
+    (getElementName t p = .panic ↔ (valueAt t p).isElement = false) ∧
+    (∀ s, commentStr t p = some s ↔ valueAt t p = .comment s) ∧
+    (∀ tg d, processingInstruction t p = some (tg, d) ↔ valueAt t p = .pi tg d) ∧
+    (∀ pf ns, namespaceNode t p = some (pf, ns) ↔ valueAt t p = .namespace pf ns) ∧
+    (∀ n v, attributeNode t p = some (n, v) ↔ valueAt t p = .attribute n v) := by
+  unfold getElementName commentStr processingInstruction namespaceNode attributeNode
+  cases valueAt t p <;> simp [Value.isElement]
+
 /-! ## Non-vacuity -/
 
 /-- `<a xmlns:p=".." x=".."><b><c/></b>text<d/></a>` in a document, with a comment after. -/
@@ -361,6 +426,12 @@ example : edgeWalk (Edge.next exTree) 20 (.start [0, 2]) =
 example : documentElement exTree [] = .ok [0] ∧ topElement exTree [0, 2, 0] = .ok [0] := by decide
 example : reverseChildren exTree [0] = [[0, 4], [0, 3], [0, 2]] := by decide
 example : topElement (.node .document [.node (.comment []) []]) [] = .ok [] := by decide
+example : isDocumentElement exTree [0] = true ∧ hasDocumentParent exTree [1] = true ∧
+    isDocumentElement exTree [1] = false ∧ isDocumentElement exTree [0, 2] = false ∧
+    getElementName exTree [0] = .ok 2 ∧ getElementName exTree [1] = .panic ∧
+    commentStr exTree [1] = some ['c'] ∧ namespaceNode exTree [0, 0] = some (2, 2) ∧
+    attributeNode exTree [0, 1] = some (3, ['v']) ∧
+    (∀ c ∈ children exTree [], (valueAt exTree c).isElement = true → c = [] ++ [0]) := by decide
 
 /-! =====================================================================================
   ### indextree's iterators on the real data structure (pointer level, `Model/ArenaIter.lean`)
